@@ -16,7 +16,9 @@ Inductive outcome :=
   | OOther.                            (* any other exception *)
 
 Record case := {
-  k_kind : Z;              (* 0 encode text | 1 as_encoded_array on encoded data | 2 change_encoding | 3 byte table *)
+  k_kind : Z;              (* 0 encode text | 1 as_encoded_array on encoded data | 2 change_encoding | 3 byte table
+                              4 numeric offset encoding (k_alpha = [min_code]) | 5 StringEncoding (k_alpha = [number of labels];
+                              k_rows = labels ++ queries) | 6 KmerEncoding (k_alpha = [k]; k_rows = the k-mer texts) *)
   k_route : Z;             (* input route, see Model.C06.encode_rows *)
   k_src : enc;             (* kinds 1,2: encoding of the data presented *)
   k_dst : enc;             (* the (target) encoding *)
@@ -59,7 +61,36 @@ Definition model_out_with (L : list Z -> list Z) (ru : rule) (c : case) : outcom
     end
   else if k_kind c =? 1 then to_outcome (k_dst c) (retarget ru (k_src c) (k_dst c) flat) lens
   else to_outcome (k_dst c) (change L (k_src c) (k_dst c) flat) lens.
-Definition model_out : case -> outcome := model_out_with cur_lower cur_rule.
+(* kinds 4,5,6 *)
+Definition opt_rows_out (codes : list Z) (t : option (list (list Z))) : outcome :=
+  match t with Some rows => OOk [codes] rows | None => OUndec end.
+Definition model_out_ext (L : list Z -> list Z) (verify : bool) (c : case) : outcome :=
+  let p := nthZ (k_alpha c) 0 in
+  if k_kind c =? 4 then
+    let '(r, codes, back) := num_rows (k_route c) p (k_rows c) in
+    match r with Unicode => OUnicode | _ => OOk codes back end
+  else if k_kind c =? 5 then
+    let labels := firstn (Z.to_nat p) (k_rows c) in
+    let queries := skipn (Z.to_nat p) (k_rows c) in
+    match str_encode verify labels queries with
+    | Ok idx => opt_rows_out idx (str_decode labels idx)
+    | EncErr o => OEncErr o
+    | _ => OOther
+    end
+  else
+    match k_dst c with
+    | Alpha raw =>
+        let A := alphabet_of raw in
+        match kmer_encode_rows L (k_route c) A p (k_rows c) with
+        | Ok hs => opt_rows_out hs (all_some (map (kmer_to_string A p) hs))
+        | EncErr o => OEncErr o
+        | Unicode => OUnicode
+        | _ => OOther
+        end
+    | Base => OOther
+    end.
+Definition model_out (c : case) : outcome :=
+  if (4 <=? k_kind c) then model_out_ext cur_lower cur_str_verify c else model_out_with cur_lower cur_rule c.
 Definition model_ok (c : case) : bool :=
   if k_kind c =? 3 then
     match k_dst c with
@@ -78,6 +109,15 @@ Definition decodes_to (e : enc) (codes t : list (list Z)) : bool :=
   | Base => zll_eqb codes t
   | Alpha raw => opt_rows_eqb (spec_decode_rows (map upper raw) codes) t
   end.
+Fixpoint list_eqb2 {A B} (f : A -> B -> bool) (a : list A) (b : list B) : bool :=
+  match a, b with
+  | [], [] => true
+  | x :: a', y :: b' => f x y && list_eqb2 f a' b'
+  | _, _ => false
+  end.
+(* position of a row in a list of rows *)
+Fixpoint find_pos (q : list Z) (ls : list (list Z)) (i : Z) : option Z :=
+  match ls with [] => None | l :: r => if zlist_eqb l q then Some i else find_pos q r (i + 1) end.
 Definition spec_ok (c : case) : bool :=
   if k_kind c =? 0 then
     (* encoding succeeds exactly when every character belongs to the alphabet, else an encoding error;
@@ -97,6 +137,54 @@ Definition spec_ok (c : case) : bool :=
                      if member A b then (0 <=? code) && (code <? len A) && (nthZ A code =? upper b)
                      else code =? 255)
                   (combine (arange (len (k_table c))) (k_table c)))
+  else if k_kind c =? 4 then
+    (* numeric offset encodings accept every byte; decoding gives the text back, element for element and row for
+       row; a byte at or above min_code is encoded as its distance from min_code *)
+    let mc := nthZ (k_alpha c) 0 in
+    if k_route c =? 9 then
+      match k_out c with
+      | OOk codes text => zll_eqb codes (k_rows c) && zll_eqb text (map (map (fun d => d + mc)) (k_rows c))
+      | _ => false
+      end
+    else if is_str_route (k_route c) && existsb (fun b => 128 <=? b) (concat (k_rows c)) then
+      match k_out c with OUnicode => true | _ => false end
+    else
+      match k_out c with
+      | OOk codes text =>
+          zll_eqb text (k_rows c) && zlist_eqb (map len codes) (map len (k_rows c))
+          && all_true (map (fun '(b, code) => (0 <=? code) && (code <? 256) && (if mc <=? b then code =? b - mc else true))
+                           (combine (concat (k_rows c)) (concat codes)))
+      | _ => false
+      end
+  else if k_kind c =? 5 then
+    (* StringEncoding: succeeds exactly when every query is one of the labels, the codes are the labels' positions
+       and decode to the queries; otherwise an encoding error *)
+    let n := Z.to_nat (nthZ (k_alpha c) 0) in
+    let labels := firstn n (k_rows c) in
+    let queries := skipn n (k_rows c) in
+    let pos q := find_pos q labels 0 in
+    if forallb (fun q => match pos q with Some _ => true | None => false end) queries then
+      match k_out c with
+      | OOk [codes] text => zll_eqb text queries
+                            && list_eqb2 (fun a b => match b with Some j => a =? j | None => false end) codes (map pos queries)
+      | _ => false
+      end
+    else match k_out c with OEncErr _ => true | _ => false end
+  else if k_kind c =? 6 then
+    (* KmerEncoding: a k-letter text over the alphabet gets the little-endian base-n number of its letters and
+       reads back as the upper-cased text; anything else raises *)
+    let A := alpha_of_enc (k_dst c) in
+    let k := nthZ (k_alpha c) 0 in
+    let want := map (map upper) (k_rows c) in
+    if forallb (fun r => (len r =? k) && text_ok A r) (k_rows c) then
+      match k_out c with
+      | OOk [hs] text =>
+          zll_eqb text want
+          && list_eqb2 (fun h w => match all_some (map (fun ch => find_pos [ch] (map (fun a => [a]) A) 0) w) with
+                                  | Some ds => h =? kmer_hash (len A) ds | None => false end) hs want
+      | _ => false
+      end
+    else is_error (k_out c) && match k_out c with OUndec => false | _ => true end
   else
     (* already encoded data presented to another encoding (kind 1) or changed to it (kind 2):
        either the result decodes to the same text, or it raises *)
